@@ -160,6 +160,59 @@ example : ∃ evs t, generate e0 Γ6 {} v6 = .ok evs ∧ eventsTree (isDatatype 
   have h := (fragments_collapse_F10 e0 Γ6 (s "Root") v6 (by decide)).1 ⟨featF6, by decide, by decide⟩
   bind_generate_F10 e0 Γ6 {} {} (s "Root") v6 h.1 h.2
 
+/-! ### over the union of the fragments (the domain of `bind_generate_partial`) -/
+
+/-- the instance lies in some fragment: F1 with any namespaces, or a feature-indexed one -/
+def InFragment (e : BEnv) (Γ : Ctx) (c : ClassId) (v : Val) : Prop :=
+  (ctxF1G false Γ = true ∧ valF1 e Γ c v = true) ∨
+    ∃ ft : Feat, ctxOK ft Γ = true ∧ valOKI ft.inherit e Γ c v = true
+
+/-- **C01, the document of fragment F1**: `docOf1` (the recursive description `treeOfN`), parsed back
+without a warning; no tail text anywhere. -/
+theorem bind_generate_document_F1 (e : BEnv) (Γ : Ctx) (cfg : SerCfg) (pcfg : ParserConfig) (c : ClassId)
+    (v : Val) (hΓ : ctxF1G false Γ = true) (hv : valF1 e Γ c v = true) :
+    ∃ evs, generate e Γ cfg v = .ok evs ∧
+      eventsTree (isDatatype Γ) evs = .ok (docOf1 Γ cfg (prefixMap (collectUris evs)) c v) ∧
+      parseRoot e Γ pcfg c (docOf1 Γ cfg (prefixMap (collectUris evs)) c v) = .ok (v, 0) ∧
+      plain (prefixMap (collectUris evs)) (docOf1 Γ cfg (prefixMap (collectUris evs)) c v) = true :=
+  roundtrip_F1G_doc e Γ cfg pcfg c v hΓ hv
+
+/-- **C01, no information is lost, across fragments**: two instances that each lie in *some* fragment
+(not necessarily the same) and have the same events are equal; with `c` fixed the class is too. -/
+theorem bind_generate_injective_partial (e : BEnv) (Γ : Ctx) (cfg : SerCfg) (c : ClassId) (v₁ v₂ : Val)
+    (h₁ : InFragment e Γ c v₁) (h₂ : InFragment e Γ c v₂)
+    (heq : generate e Γ cfg v₁ = generate e Γ cfg v₂) : v₁ = v₂ := by
+  obtain ⟨evs₁, t₁, hg₁, ht₁, hp₁⟩ := bind_generate_partial e Γ cfg {} c v₁ h₁
+  obtain ⟨evs₂, t₂, hg₂, ht₂, hp₂⟩ := bind_generate_partial e Γ cfg {} c v₂ h₂
+  rw [heq, hg₂] at hg₁; cases hg₁
+  rw [ht₂] at ht₁; cases ht₁
+  rw [hp₂] at hp₁; cases hp₁
+  rfl
+
+/-- **C01, one document for every parser configuration, across fragments** -/
+theorem bind_generate_all_configs_partial (e : BEnv) (Γ : Ctx) (cfg : SerCfg) (c : ClassId) (v : Val)
+    (h : InFragment e Γ c v) :
+    ∃ evs t, generate e Γ cfg v = .ok evs ∧ eventsTree (isDatatype Γ) evs = .ok t ∧
+      ∀ pcfg : ParserConfig, parseRoot e Γ pcfg c t = .ok (v, 0) := by
+  obtain ⟨evs, t, hg, ht, _⟩ := bind_generate_partial e Γ cfg {} c v h
+  refine ⟨evs, t, hg, ht, fun pcfg => ?_⟩
+  obtain ⟨evs', t', hg', ht', hp'⟩ := bind_generate_partial e Γ cfg pcfg c v h
+  rw [hg] at hg'; cases hg'
+  rw [ht] at ht'; cases ht'
+  exact hp'
+
+/-- an F1 instance (`Γ2`, `v2`) and an F10 instance are both in the union -/
+example : InFragment e0 Γ2 (s "Root") v2 := Or.inl ⟨by decide, by decide⟩
+example : InFragment e0 Γ10 (s "Root") v10 := Or.inr ⟨featF10, by decide, by decide⟩
+example : ∃ evs t, generate e0 Γ2 {} v2 = .ok evs ∧ eventsTree (isDatatype Γ2) evs = .ok t ∧
+    ∀ pcfg : ParserConfig, parseRoot e0 Γ2 pcfg (s "Root") t = .ok (v2, 0) :=
+  bind_generate_all_configs_partial e0 Γ2 {} (s "Root") v2 (Or.inl ⟨by decide, by decide⟩)
+example : ∃ evs, generate e0 Γ2 {} v2 = .ok evs ∧
+    eventsTree (isDatatype Γ2) evs = .ok (docOf1 Γ2 {} (prefixMap (collectUris evs)) (s "Root") v2) ∧
+    parseRoot e0 Γ2 {} (s "Root") (docOf1 Γ2 {} (prefixMap (collectUris evs)) (s "Root") v2) = .ok (v2, 0) ∧
+    plain (prefixMap (collectUris evs)) (docOf1 Γ2 {} (prefixMap (collectUris evs)) (s "Root") v2) = true :=
+  bind_generate_document_F1 e0 Γ2 {} {} (s "Root") v2 (by decide) (by decide)
+
 /-! ### instances -/
 
 example : ∃ evs, generate e0 Γ10 {} v10 = .ok evs ∧
